@@ -117,6 +117,12 @@ func tpReplay(init map[string][]cred, hist []event, everyStep bool) (key string,
 	ref := newTpRef(init)
 	for i, e := range hist {
 		var st tpStep
+		judged := everyStep || i == len(hist)-1
+		var fl *inflight
+		if judged {
+			// handshakes that are in flight while the event lands (see inflight.go)
+			fl = startInflight(m, tpPairs)
+		}
 		switch e.Op {
 		case "prep":
 			if p := ev.Catch(func() { err = m.ReloadNamespacePrepare(tpConfig(e.NS, e.Users)) }); p != nil || err != nil {
@@ -159,12 +165,21 @@ func tpReplay(init map[string][]cred, hist []event, everyStep bool) (key string,
 			return "", &verdict{msg: fmt.Sprintf("[two_phase] initial %v, after %v: ReloadNamespaceCommit panics: %s", init, hist[:i+1], st.panicked),
 				features: map[string]string{"kind": "commit_panics", "rig": "two_phase", "op": e.Op, "cleared_colon": "", "victim_is_split_prefix_of_cleared": "", "depth": strconv.Itoa(i + 1)}}, outcome
 		}
-		if !everyStep && i < len(hist)-1 {
+		if !judged {
 			continue
 		}
-		for _, c := range tpPairs {
+		during := fl.finish()
+		for pi := 0; pi < 2*len(tpPairs); pi++ {
+			c := tpPairs[pi%len(tpPairs)]
 			want := ref.owner(c)
-			got := authMGR(m, c)
+			probe := "after"
+			var got authResult
+			if pi < len(tpPairs) {
+				probe = "during_handshake"
+				got = during[c]
+			} else {
+				got = authMGR(m, c)
+			}
 			kind := ""
 			switch {
 			case want != "" && !got.ok:
@@ -182,9 +197,9 @@ func tpReplay(init map[string][]cred, hist []event, everyStep bool) (key string,
 				ops = append(ops, h.Op)
 			}
 			return "", &verdict{
-				msg: fmt.Sprintf("[two_phase] initial %v, after %v (last step: %s) the pair %q/%q: Gaea ok=%v ns=%q, reference ns=%q; reference %s",
-					init, hist[:i+1], outcome, c.User, c.Pw, got.ok, got.ns, want, ref),
-				features: map[string]string{"kind": kind, "rig": "two_phase", "op": e.Op, "last_outcome": outcome, "ops": strings.Join(ops, ","),
+				msg: fmt.Sprintf("[two_phase, probe %s] initial %v, after %v (last step: %s) the pair %q/%q: Gaea ok=%v ns=%q, reference ns=%q; reference %s",
+					probe, init, hist[:i+1], outcome, c.User, c.Pw, got.ok, got.ns, want, ref),
+				features: map[string]string{"kind": kind, "rig": "two_phase", "probe": probe, "op": e.Op, "last_outcome": outcome, "ops": strings.Join(ops, ","),
 					"cleared_colon": "", "victim_is_split_prefix_of_cleared": "", "depth": strconv.Itoa(i + 1)},
 			}, outcome
 		}
